@@ -227,7 +227,9 @@ func (c10Driver) Run(raw json.RawMessage) Case {
 	var snapIncr *bug.Snapshot
 	for i, o := range in.Ops {
 		au := c10Authors[((o.A%3)+3)%3]
-		t := int64(1600000000 + i)
+		// wall-clock times are not monotonic between collaborators (clock skew, importers replaying original
+		// dates): the interpretation of the operations must not depend on them
+		t := int64(1600000000 + (i*7919)%97 - 40)
 		var op bug.Operation
 		switch o.K {
 		case "create":
@@ -386,6 +388,32 @@ func (c10Driver) Run(raw json.RawMessage) Case {
 				if v.Edited() != (len(v.History) > 1) || v.MessageIsEmpty() != (strings.TrimSpace(v.Message) == "") {
 					return "Edited/MessageIsEmpty disagree with the item"
 				}
+			}
+		}
+		// a comment's timeline entry shows the comment as it is now
+		for _, it := range s.Timeline {
+			var msg string
+			var files []repository.Hash
+			switch v := it.(type) {
+			case *bug.CreateTimelineItem:
+				msg, files = v.Message, v.Files
+			case *bug.AddCommentTimelineItem:
+				msg, files = v.Message, v.Files
+			default:
+				continue
+			}
+			for _, c := range s.Comments {
+				if c.CombinedId() != it.CombinedId() {
+					continue
+				}
+				same := c.Message == msg && len(c.Files) == len(files)
+				for k := range files {
+					same = same && k < len(c.Files) && c.Files[k] == files[k]
+				}
+				if !same {
+					return "a comment's timeline entry does not show the comment's current text and files"
+				}
+				break
 			}
 		}
 		if _, err := s.SearchTimelineItem(entity.CombinedId("none")); err == nil {
